@@ -334,6 +334,9 @@ func (q *OutQueue) addChunk(data []byte) error {
 // Write will create packets out of the given byte stream. Make sure that the writes are as large as possible,
 // otherwise Packet will get quite small.
 func (q *OutQueue) Write(b []byte, mtu uint32) (n int, err error) {
+	if mtu == 0 {
+		return 0, errors.New("fragment size is zero")
+	}
 	err = q.waitEmptyQueue()
 	if err != nil {
 		return
